@@ -988,6 +988,9 @@ package desync
 //@   ghost@loop2.break $tlen = len(items)
 //@   ensures @C04 old(d.advance) == nil && $r[old($rp)+8] == CaFormatTable && r1 != nil && r1 != $tlast ==> \
 //@       $r[old($rp)] != 18446744073709551615 || $r[old($rp)+16+40*$tlen+8] != 0 || $r[old($rp)+16+40*$tlen+32] != CaFormatTableTailMarker
+//# stack: one call decodes one element and returns - the decoder never calls itself (an element that is skipped must
+//# not cost a stack frame per element: input-sized recursion is memory out of proportion and ends in a fatal stack overflow)
+//@   oncall Next: requires @C19 false
 
 //@ ghost var $merr error
 //@ ghost var $mlen int
@@ -2519,6 +2522,10 @@ package desync
 //@   ensures stdDecoder(decoder)
 
 //@ owner @C20 var: encoder, decoder by init:encoder, init:decoder
+//# a LocalStore's converter stack is what its options say (NewLocalStore: opt.converters()); nobody else makes a
+//# LocalStore value with fields set (a literal elsewhere - also one that merely leaves converters out - would give a
+//# store that names its files .cacnk but reads and writes them raw, or the other way round)
+//@ owner @C20,C03 LocalStore: converters by NewLocalStore
 
 //# the compression layer stores exactly what Compress made of the chunk and hands back exactly what Decompress
 //# made of the stored bytes - no shortcut for data that does not shrink, no pass-through for bytes that are not
